@@ -563,6 +563,14 @@ def _scenarios(chk, rng, tier, scr, model_ok, facts):
         d = [0.0, 0.003, 0.02][i % 3]
         scns.append(Scn("stop-then-signal-cap", ["check", "all", "-e", "3"], b"".join(pk_err), "endless", rng.choice([None, "0:v.recv=200", "0:a.recv=3000"]),
                         ("stop_then_signal", signal.SIGINT, d)))
+    # G. a signal while errors keep arriving BELOW a (huge) error cap, on endless erroneous input: the collector handles the cap on
+    #    every error message and must never take the stop request back (seed C17-G)
+    pk_sparse = b"".join(rdh_stream(rng, 4000, links=4, bad_every=40))     # a few errors per reader batch: the event trace stays small
+    for i in range(2 if quick else 8):
+        capv = rng.choice([300000, 1000000])      # far above what the run reaches; the extracted LTS counts the cap in unary
+        a = [["check", "all", "-e", str(capv), "-m"], ["check", "sanity", "-e", str(capv), "-m"]][i % 2]
+        scns.append(Scn("signal-below-cap", a, pk_sparse, "endless", None,      # no injected sleeps: nothing to grant, 20 s after the signal is the limit
+                        ("signal", rng.choice([signal.SIGINT, signal.SIGTERM]), [0.2, 0.4, 0.1, 0.3][i % 4])))
     # run (scenario runs are timing-sensitive: a few at a time)
     results = core.par_map(lambda t: run_scn(t[1], scr, t[0]), list(enumerate(scns)), workers=4)
     # verdicts
